@@ -6,7 +6,7 @@ PID=$1; SRC=$2; K=$3; TIER=${4:-quick}
 WT=/tmp/seedrun-$PID-$K; SCR=/var/tmp/seedrun-$PID-$K
 git -C /repo worktree remove --force $WT 2>/dev/null; rm -rf $WT $SCR; mkdir -p $SCR
 git -C /repo worktree add -q --detach $WT HEAD || exit 2
-cd /verif
+cd "${VERIF_HOME:-/verif}"
 demo_clean=$(PYTHONPATH=$WT timeout 300 /venv/bin/python -B $SRC/demo$K.py >/dev/null 2>&1; echo $?)
 if ! git -C $WT apply $SRC/change$K.diff 2>$SCR/apply.err; then echo "{\"pid\":\"$PID\",\"k\":$K,\"applies\":false}"; git -C /repo worktree remove --force $WT; exit 0; fi
 demo_mut=$(PYTHONPATH=$WT timeout 300 /venv/bin/python -B $SRC/demo$K.py >$SCR/demo.out 2>&1; echo $?)
